@@ -12,13 +12,13 @@ LEVEL_TEXT = ('seeded deterministic simulation: many short, diverse simulated ru
 CHECKS = {
     'C01': dict(engine='sim', design='5/C01', technique='deterministic simulation with fault injection: seeded op schedules over random compositions and member worlds, rejected actions and membership probes injected mid-history, totality / closure / independent membership predicates checked per operation',
                 note='trusted: the independent membership predicates and descriptor reader; state membership is colour-blind as the statement lists; components are only composed with worlds keeping their documented preconditions'),
-    'C10': dict(engine='sim', design='5/C10', technique='deterministic simulation: seeded op schedules with door/key/box scenes planted in front of the agent, per-component refinement of door/box cells and held item against a reference model, history monitor that no door is open without a documented actuation',
+    'C10': dict(engine='sim', design='5/C10', technique='deterministic simulation: seeded op schedules with door/key/box scenes planted in front of the agent, per-component refinement of door/box cells and held item against a reference model, seam checks between step input / components / result, caller-deepcopy + in-place-step fault, history monitor that no door is open without a documented actuation',
                 note='trusted: reference model and descriptor reader; raising steps are C01\'s'),
     'C12': dict(engine='sim', design='5/C12', technique='deterministic simulation: seeded op schedules; every reward/termination component, composite and the step\'s (reward, flag) compared with the documented formula on (state, action, returned next state), plus direct component calls on arbitrary triples asked twice',
                 note='trusted: documented formulas in gvsim/model.py; floats compared with tolerance 1e-9; agent-on-Wall states excluded from the bump oracle; memory rewards judged on single-beacon-colour states'),
-    'C02': dict(engine='sim', design='5/C02', technique='deterministic simulation with fault injection: seeded interleaving of several live environments (twins included) with an adversary that reseeds/draws/clears every process-global source; each client compared with its solo re-execution (debug flipped), global generators compared around every client op (tripwire), and restart in fresh interpreters under other PYTHONHASHSEED values',
+    'C02': dict(engine='sim', design='5/C02', technique='deterministic simulation with fault injection: seeded interleaving of several live environments (twins included) with an adversary that reseeds/draws/clears every process-global source; each client compared with its solo re-execution (debug flipped), a re-seeded used environment compared with a fresh one, global generators compared around every client op (tripwire), and restart in fresh interpreters under other PYTHONHASHSEED values',
                 note='trusted: history digests via the descriptor reader; YAML construction draws from the library generator before a seed exists and is not judged; interleaving granularity is one public API call'),
-    'C03': dict(engine='sim', design='5/C03', technique='deterministic simulation with fault injection: argument digests around every functional call, identity-graph disjointness of input and next state, caller-mutation faults on inputs/outputs, cache clearing / eviction pressure / foreign-client calls between a question and its repeat (question bank), history-free reference for memoised rewards',
+    'C03': dict(engine='sim', design='5/C03', technique='deterministic simulation with fault injection: argument digests around every functional call, identity-graph disjointness of input and next state, caller-mutation faults on inputs/outputs, cache clearing / eviction pressure / foreign-client calls between a question and its repeat (question bank), history-free reference for memoised rewards, copies (fast_copy, deepcopy, rebuilt) must equal and hash alike after arbitrary hashing history',
                 note='trusted: descriptor reader and identity-graph walker; observation cells aliasing state cells and sharing of attribute-less objects are not judged; cache objects are never mutated by the simulated caller'),
     'C04': dict(engine='sim', design='5/C04', technique='deterministic simulation with fault injection: refinement of the stateful environment against a twin used only through the functional interface (M-env), generator lock-step after every op, arbitrary read patterns, resets mid-episode, rejected actions and global-state noise injected between step and read',
                 note='trusted: the twin is the same component code threaded functionally; representation oracle objects are built separately from the ones inside OuterEnv'),
@@ -32,7 +32,7 @@ CHECKS = {
                 note='trusted: the twin inner environment and separately constructed representation objects; indices outside range(n) and GymEnvironment.seed are not exercised'),
     'C05': dict(engine='viewsim', design='5/C05', technique='deterministic simulation (weak fit: pure function of state and view): a walking client reaches poses on edges/corners in all headings through the real move/turn functions; every observation read is compared cell by cell with the reference view geometry; the generator seam of the stochastic function is owned (ScriptedRng uniform/extreme and real seeds)',
                 note='weak fit for this technique (DESIGN.md section 0): the simulator contributes pose histories, the generator seam and the per-read oracle; trusted: view geometry of gvsim/model.py (validated against fully_transparent)'),
-    'C06': dict(engine='viewsim', design='5/C06', technique='deterministic simulation with fault injection (weak fit): corrupt_hidden faults replace hidden / out-of-view world cells in a twin state at the moment of a read and the observation must not change; monotone probes; chain condition on visibility masks; stochastic mask bounded by the deterministic one for scripted extreme and seeded draws',
+    'C06': dict(engine='viewsim', design='5/C06', technique='deterministic simulation with fault injection (weak fit): corrupt_hidden faults replace hidden / out-of-view world cells in a twin state at the moment of a read and the observation must not change; monotone probes; own-cell and chain condition on the bare visibility masks and on the mask the observation function itself applied; stochastic mask bounded by the deterministic one for scripted extreme and seeded draws',
                 note='weak fit (DESIGN.md section 0); the agent cell counts as a chain link whatever it holds; non-interference judged for the deterministic functions only'),
     'C15': dict(engine='sim', design='5/C15', technique='deterministic simulation: seeded histories (corner walks, pick/drop/swap, door and box opening) over declared spaces with member worlds using every declared type/status/colour and over shipped configurations; after every step all three representations of state and observation are checked key by key against the declared space and the gym space',
                 note='trusted: own shape/dtype/bounds check; member worlds use only declared types and colours; views have their origin inside'),
